@@ -5,9 +5,9 @@ from props import factor_common as fc
 
 PID = "C02"
 GEN = ["primality"]
-LEAN = ["Ymq.Props.C02"]
+LEAN = ["Ymq.Props.C02", "Ymq.Props.C02C06"]
 AUDIT = "Ymq.Audit.C02"
-THEOREMS = ['Ymq.C02.auto_composite_needs_giveup', 'Ymq.C02.auto_composite_needs_giveup_det', 'Ymq.C02.auto_complete', 'Ymq.C02.factor_composite_needs_giveup', 'Ymq.C02.factor_auto_complete']
+THEOREMS = ['Ymq.C02.auto_composite_needs_giveup', 'Ymq.C02.auto_composite_needs_giveup_det', 'Ymq.C02.auto_complete', 'Ymq.C02.factor_composite_needs_giveup', 'Ymq.C02.factor_auto_complete', 'Ymq.C02.auto_complete_on', 'Ymq.C02.auto_complete_64']
 PROFILES = ["release"]
 TIMEOUT = 300.0
 RULE = ("exhaustive sweep of n < 2^22 (quick) / 2^26 (thorough) in Auto mode and smaller ranges for the other selectors, judged "
@@ -19,7 +19,7 @@ MODELLED = ["lib.rs factor_impl control flow (Ymq/Model/Factor.lean): every elem
             "primality oracle or is an explicit give-up event of the model"]
 UNMODELLED = ["that no give-up event occurs (success of rho / ECM / SIQS) is heuristic and is explored, not proved",
               "pseudoprime's exactness is property C06"]
-HYPOTHESES = ['hsound: the primality oracle answers true only on primes (C06: exact below 2^64 under the psi hypotheses; heuristic above)', 'state-independent prime oracle (for the _det form)']
+HYPOTHESES = ["auto_complete_64: Hpsi2, Hpsi5, Hpsi12 (minimal strong pseudoprimes 1373653, 2152302898747, > 2^64: literature facts as explicit hypotheses) and the primality oracle being the modelled pseudoprime (tied to the code under C06)", 'hsound: the primality oracle answers true only on primes (C06: exact below 2^64 under the psi hypotheses; heuristic above)', 'state-independent prime oracle (for the _det form)']
 _sweep_inputs = [0]
 
 
